@@ -244,6 +244,9 @@ func runC11(c *Ctx) {
 
 	ruleSizeParam(c) // SIZE is decoded as an unsigned decimal that cannot wrap
 
+	ruleGrammarGuards(c)
+	ruleOptsPointerFresh(c)
+
 	R.Rule("R-enum-whitelist", "E3 edge-feasibility", "BODY, RET, NOTIFY elements and the ORCPT address type are accepted only when equal to a declared constant", 6)
 	if f := c.A.Func("(*Conn).handleMail"); f != nil {
 		for _, site := range s.Find(f, "st:MailOptions.Body") {
